@@ -12,17 +12,17 @@ namespace {
 template <class PT> PT mkp(const V3& a) { PT p = PT::Zero(); for (int i = 0; i < PointTraits<PT>::DIM; ++i) p[i] = (typename PT::Scalar)a[i]; if (PointTraits<PT>::SIZE > PointTraits<PT>::DIM) p[PointTraits<PT>::SIZE - 1] = 1; return p; }
 template <class PT> V3 tov(const PT& p) { V3 v = V3::Zero(); for (int i = 0; i < PointTraits<PT>::DIM; ++i) v[i] = p[i]; return v; }
 
-template <class PT> void run_set(vf::Ctx& c, const char* tname, const regref::Set& set) {
+template <class PT> void run_set(vf::Ctx& c, const char* tname, const regref::Set& set, bool th) {
   using S = typename PT::Scalar; constexpr int DIM = PointTraits<PT>::DIM;
   using H = Eigen::Matrix<S, DIM + 1, DIM + 1>;
   LD eps = std::numeric_limits<S>::epsilon();
   const bool dbl = std::is_same<S, double>::value;
-  auto rots = regref::rotations(DIM);
+  auto rots = regref::rotations(DIM, th);
   std::vector<V3> trans = {V3(0, 0, 0), V3(0.3, -1.2, DIM == 3 ? 2 : 0), V3(1e3, -1e3, DIM == 3 ? 10 : 0)};
   size_t n = set.pts.size();
   for (size_t ir = 0; ir < rots.size(); ++ir) for (size_t it = 0; it < trans.size(); ++it) for (int sig = 0; sig < 3; ++sig) {
     LD sigma = sig == 0 ? 0 : sig == 1 ? 1e-3L : 0.1L;
-    if (sig && (ir % 3)) continue;   // perturbed data on a third of the rotations
+    if (sig && (ir % 3) && !th) continue;   // quick: perturbed data on a third of the rotations
     PointSet<PT> src, tgt;
     for (size_t i = 0; i < n; ++i) {
       V3 p(set.pts[i][0], set.pts[i][1], DIM == 3 ? set.pts[i][2] : 0);
@@ -96,9 +96,9 @@ uint64_t vf_ncases(const std::string& tier) { init(); return 4 * g2.size() + 4 *
 void vf_run(uint64_t idx, const std::string& tier, vf::Ctx& c) {
   init();
   if (idx < 4 * g2.size()) { int t = idx / g2.size(); const auto& s = g2[idx % g2.size()];
-    switch (t) { case 0: run_set<Eigen::Vector2d>(c, kTypes[0], s); break; case 1: run_set<Eigen::Vector2f>(c, kTypes[1], s); break; case 2: run_set<HomogeneousCoordinates2d>(c, kTypes[2], s); break; default: run_set<HomogeneousCoordinates2f>(c, kTypes[3], s); } }
+    switch (t) { case 0: run_set<Eigen::Vector2d>(c, kTypes[0], s, tier == "thorough"); break; case 1: run_set<Eigen::Vector2f>(c, kTypes[1], s, tier == "thorough"); break; case 2: run_set<HomogeneousCoordinates2d>(c, kTypes[2], s, tier == "thorough"); break; default: run_set<HomogeneousCoordinates2f>(c, kTypes[3], s, tier == "thorough"); } }
   else { uint64_t r = idx - 4 * g2.size(); int t = r / g3.size(); const auto& s = g3[r % g3.size()];
-    switch (t) { case 0: run_set<Eigen::Vector3d>(c, kTypes[4], s); break; case 1: run_set<Eigen::Vector3f>(c, kTypes[5], s); break; case 2: run_set<HomogeneousCoordinates3d>(c, kTypes[6], s); break; default: run_set<HomogeneousCoordinates3f>(c, kTypes[7], s); } }
+    switch (t) { case 0: run_set<Eigen::Vector3d>(c, kTypes[4], s, tier == "thorough"); break; case 1: run_set<Eigen::Vector3f>(c, kTypes[5], s, tier == "thorough"); break; case 2: run_set<HomogeneousCoordinates3d>(c, kTypes[6], s, tier == "thorough"); break; default: run_set<HomogeneousCoordinates3f>(c, kTypes[7], s, tier == "thorough"); } }
 }
 
 std::string vf_case_params(uint64_t idx, const std::string& tier) { init(); bool is2 = idx < 4 * g2.size(); uint64_t r = is2 ? idx : idx - 4 * g2.size(); const auto& g = is2 ? g2 : g3; return vf::JO().u("case", idx).str("type", kTypes[(is2 ? 0 : 4) + r / g.size()]).str("set", g[r % g.size()].name).done(); }
@@ -106,7 +106,7 @@ std::string vf_case_params(uint64_t idx, const std::string& tier) { init(); bool
 std::string vf_describe(const std::string& tier) {
   init(); vf::JO o; std::vector<std::string> a, b; for (auto& s : g2) a.push_back(s.name); for (auto& s : g3) b.push_back(s.name);
   o.strs("sets_2d", a).strs("sets_3d", b);
-  o.str("rotations", "2D: {0,+-1e-6,+-0.1,+-pi/2,+-(pi-1e-6),pi}; 3D: 6 axes x {0,1e-6,0.1,pi/2,pi-1e-6,pi}");
+  o.str("rotations", tier == "thorough" ? "2D: {0,+-1e-6,+-0.1,+-pi/2,+-(pi-1e-6),pi} + 71 angles every 5 deg; 3D: 6 axes x {0,1e-6,0.1,pi/2,pi-1e-6,pi} + 8 axes x {1e-3,0.5,1,2,2.5,3,pi-1e-3,pi-1e-9}; perturbed data on every rotation" : "2D: {0,+-1e-6,+-0.1,+-pi/2,+-(pi-1e-6),pi}; 3D: 6 axes x {0,1e-6,0.1,pi/2,pi-1e-6,pi}");
   o.str("translations", "0, (0.3,-1.2,2), (1e3,-1e3,10)");
   o.str("correspondences", "identity, reversed, shuffled order, every other (subset), target stored permuted");
   o.str("overloads", "index-based and aligned, plain and preconditioned with scale {1e-3, 1/largest side, 1, 1e3}");
